@@ -22,12 +22,31 @@ struct Prog {
     std::vector<int> writers;  // modifies per writer
     std::vector<Reader> readers;
     bool noncommuting;  // writer i applies x->2x+1 (i even) or x->3x (i odd)
+    bool unwinding = false;  // writers call modify() from a destructor while an exception propagates
 };
+struct Unwinding {};
+template <class F>
+struct RunInDtor {
+    F f;
+    ~RunInDtor() { f(); }
+};
+template <class F>
+void maybe_during_unwinding(bool unwinding, F f)
+{
+    if (!unwinding) return f();
+    try {
+        RunInDtor<F> g{f};
+        throw Unwinding();
+    }
+    catch (const Unwinding&) {
+    }
+}
 const char* formn[] = {"lock_shared", "try_lock_shared", "try_lock_shared_for", "try_lock_shared_until"};
 
 std::string text(const Prog& p)
 {
-    std::string s = std::string("lr_guarded<Pair>") + (p.noncommuting ? " [non-commuting functors]" : "");
+    std::string s = std::string("lr_guarded<Pair>") + (p.noncommuting ? " [non-commuting functors]" : "") +
+        (p.unwinding ? " [modify called from a destructor during stack unwinding]" : "");
     for (int m : p.writers) s += " | writer: modify x" + std::to_string(m);
     for (auto& r : p.readers)
         s += std::string(" | reader: ") + formn[r.form] + " x" + std::to_string(r.acq) + (r.hold ? " (overlapping handles)" : "");
@@ -62,8 +81,8 @@ void body(const Prog& p)
         total_mods += m;
         int kind = p.noncommuting ? (wi % 2) + 1 : 0;
         wi++;
-        ids.push_back(spawn([lr, m, kind] {
-            for (int i = 0; i < m; i++) {
+        ids.push_back(spawn([lr, m, kind, unw = p.unwinding] {
+            for (int i = 0; i < m; i++) maybe_during_unwinding(unw, [&] {
                 stamp();
                 ++g_mod_invoked;
                 lr->modify([kind](Pair& x) {
@@ -84,7 +103,7 @@ void body(const Prog& p)
                 });
                 stamp();
                 ++g_mod_returned;
-            }
+            });
         }));
     }
     for (auto& r : p.readers) {
@@ -298,7 +317,7 @@ void make_items(const Options& o, std::vector<Item>& items)
             it.name = "lr_guarded<Pair> | writer: modify x2, the functor of the first throws half-way on its " +
                 std::string(throw_at == 1 ? "first" : "second") + " application | " + std::to_string(readers) + " reader(s) x2";
             it.body = [throw_at, readers] { body_throwing(throw_at, readers, 2); };
-            it.bounds = hx::tier_bounds(o, readers == 1 ? 3 : 2, readers == 1 ? 5 : 3);
+            it.bounds = hx::tier_bounds(o, 3, readers == 1 ? 5 : 3);
             items.push_back(it);
         }
     for (int readers = 1; readers <= 2; readers++)
@@ -307,7 +326,7 @@ void make_items(const Options& o, std::vector<Item>& items)
             it.name = "lr_guarded<Pair> | " + std::to_string(readers) + " reader(s) hold their handle until the writer is inside modify | writer: modify x" +
                 std::to_string(mods);
             it.body = [readers, mods] { body_held(readers, mods); };
-            it.bounds = hx::tier_bounds(o, readers == 1 ? 3 : 2, readers == 1 ? 5 : 3);
+            it.bounds = hx::tier_bounds(o, 3, readers == 1 ? 5 : 3);
             items.push_back(it);
         }
     auto add = [&](std::vector<int> ws, std::vector<Reader> rs, bool nc, int Pq, int Pt) {
@@ -318,6 +337,14 @@ void make_items(const Options& o, std::vector<Item>& items)
         it.bounds = hx::tier_bounds(o, Pq, Pt);
         items.push_back(it);
     };
+    {
+        Prog p{{2}, {Reader{2, 0, false}}, false, true};
+        Item it;
+        it.name = text(p);
+        it.body = [p] { body(p); };
+        it.bounds = hx::tier_bounds(o, 3, 5);
+        items.push_back(it);
+    }
     auto form = [&]() { return thorough ? (nform++ % 4) : (nform++ % 4); };
     // 1 writer, 1 reader
     for (int m = 1; m <= 2; m++)
@@ -330,14 +357,14 @@ void make_items(const Options& o, std::vector<Item>& items)
     for (int f = 0; f < 4; f++) add({1}, {Reader{2, f, false}}, false, 3, 5);
     // 1 writer, 2 readers
     for (int r1 = 1; r1 <= 2; r1++)
-        for (int r2 = r1; r2 <= 2; r2++) add({1}, {Reader{r1, form(), false}, Reader{r2, form(), r2 == 2}}, false, 2, 3);
+        for (int r2 = r1; r2 <= 2; r2++) add({1}, {Reader{r1, form(), false}, Reader{r2, form(), r2 == 2}}, false, 3, 3);
     // 2 writers, 1 reader
-    for (int r = 1; r <= 2; r++) add({1, 1}, {Reader{r, form(), false}}, false, 2, 3);
-    add({1, 1}, {Reader{2, 0, true}}, false, 2, 3);
-    add({1, 1}, {Reader{2, 0, false}}, true, 2, 3);
-    add({1, 1}, {Reader{1, 0, false}}, true, 2, 4);
+    for (int r = 1; r <= 2; r++) add({1, 1}, {Reader{r, form(), false}}, false, 3, 3);
+    add({1, 1}, {Reader{2, 0, true}}, false, 3, 3);
+    add({1, 1}, {Reader{2, 0, false}}, true, 3, 3);
+    add({1, 1}, {Reader{1, 0, false}}, true, 3, 4);
     // 2 writers, 2 readers
-    add({1, 1}, {Reader{1, 0, false}, Reader{1, 1, false}}, false, 2, 3);
+    add({1, 1}, {Reader{1, 0, false}, Reader{1, 1, false}}, false, 3, 3);
     if (thorough) {
         // systematic: every writer multiset x every reader multiset (forms lock_shared / try_lock_shared_for)
         std::vector<std::vector<int>> wsets = {{1}, {2}, {1, 1}, {2, 1}, {2, 2}, {1, 1, 1}};
@@ -358,12 +385,12 @@ void make_items(const Options& o, std::vector<Item>& items)
                 }
             }
         }
-        add({1, 1}, {Reader{2, 0, false}, Reader{2, 0, false}}, false, 2, 3);
-        add({2, 1}, {Reader{2, 0, false}}, false, 2, 3);
-        add({2, 2}, {Reader{2, 0, true}}, false, 2, 3);
-        add({1, 1}, {Reader{2, 0, false}, Reader{1, 0, false}}, true, 2, 3);
-        add({2}, {Reader{3, 0, true}, Reader{2, 2, false}}, false, 2, 3);
-        add({1, 1, 1}, {Reader{2, 0, false}}, false, 2, 3);
+        add({1, 1}, {Reader{2, 0, false}, Reader{2, 0, false}}, false, 3, 3);
+        add({2, 1}, {Reader{2, 0, false}}, false, 3, 3);
+        add({2, 2}, {Reader{2, 0, true}}, false, 3, 3);
+        add({1, 1}, {Reader{2, 0, false}, Reader{1, 0, false}}, true, 3, 3);
+        add({2}, {Reader{3, 0, true}, Reader{2, 2, false}}, false, 3, 3);
+        add({1, 1, 1}, {Reader{2, 0, false}}, false, 3, 3);
     }
 }
 }  // namespace
